@@ -17,9 +17,9 @@ Proof. intros d l. split; [apply translated_parsed_attributes | apply (parsed_re
 
 Example c17_parser_example :
   s_mattrs (finish (fold_left step
-     [ {| a_path := ["sv"; "msg_attr"]; a_content := IsList true (VStr "exec, derive(PartialOrd)"); a_msg_type := "" |};
-       {| a_path := ["derive"]; a_content := IsList true (VStr "Clone"); a_msg_type := "" |};
-       {| a_path := ["sv"; "msg_attr"]; a_content := IsList true (VStr "query, derive(Eq)"); a_msg_type := "" |} ] init)) =
+     [ {| a_path := ["sv"; "msg_attr"]; a_content := IsList true (VStr "exec, derive(PartialOrd)"); a_msg_type := ""; a_resp := none |};
+       {| a_path := ["derive"]; a_content := IsList true (VStr "Clone"); a_msg_type := ""; a_resp := none |};
+       {| a_path := ["sv"; "msg_attr"]; a_content := IsList true (VStr "query, derive(Eq)"); a_msg_type := ""; a_resp := none |} ] init)) =
   [VStr "exec, derive(PartialOrd)"; VStr "query, derive(Eq)"].
 Proof. vm_compute. reflexivity. Qed.
 
